@@ -69,6 +69,23 @@ CLAIMS = {
         note=BASE_NOTE + "Empty-binding insert/check are modelled but outside the statement. Inside the finding's scope a case is "
              "attributed to C20-F1 only if the model returns exactly what the implementation returns.",
         tech="Lean 4 proof (invariants by induction over operation histories, induction on the key list) + exhaustive-lookup differential correspondence"),
+    'C08': dict(
+        text="State machine Mode.lean (context variable, expression stack, open blocks, iterator life-cycle) transliterating "
+             "symbolic_mode/rule_mode/__enter__/__exit__/An.evaluate. For ALL histories: c08_confined (mode = innermost enclosing "
+             "block, stack = pushed queries), c08_outside_blocks, c08_inside_block, c08_iter_ops_invisible (create/advance/close/"
+             "finalise anywhere changes nothing observable), c08_leave_restores (any balanced body, incl. exceptions). "
+             "Correspondence: random histories run with REAL with-statements, real iterators and gc, observed after every step.",
+        note=BASE_NOTE + "Single thread; the time at which CPython finalises a dropped iterator is covered by quantifying over the "
+             "position of the close step.",
+        tech="Lean 4 proof (invariant by induction over operation histories) + step-by-step differential correspondence"),
+    'C09': dict(
+        text="World.atMode models what user code sees under a mode (a predicate call builds an expression in symbolic mode); "
+             "c09_an_ambient_irrelevant / c09_the_ambient_irrelevant: both entry points compute with the mode off, so the result "
+             "under any ambient mode equals the L1 semantics; c09_symbolic_predicates_would_differ shows why. Correspondence: "
+             "each query under ambient none/query/rule x an/the x caching, against the oracle.",
+        note=BASE_NOTE + "The theorem is about the transliterated entry points (duringAdvance/duringThe); that the mode is read "
+             "only by hybrid_new / predicate.wrapper is an assumption checked by the correspondence, not proved.",
+        tech="Lean 4 proof (frame lemma over the evaluator entry points) + differential correspondence across ambient modes"),
 }
 
 ALL = ['C%02d' % i for i in range(1, 21)]
